@@ -5,6 +5,7 @@ package main
 import (
 	"bytes"
 	"fmt"
+	"os"
 	"regexp"
 	"strconv"
 	"strings"
@@ -16,7 +17,7 @@ func init() {
 	Register(&Prop{
 		ID: "C17",
 		Rule: "a hijacking request (optionally preceded by ordinary requests, which may call HijackSetNoResponse(true) without hijacking; optionally HijackSetNoResponse on the hijacking request) followed by arbitrary bytes E: in the same write, in a later write, or straddling the 4096-byte read buffer (head padded), " +
-			"x ReduceMemoryUsage x KeepHijackedConns x handler reading everything or only k bytes (the rest read after the handler returned when the connection is kept); " +
+			"x ReduceMemoryUsage x KeepHijackedConns x per-request read/write deadlines from HeaderReceived on the hijacking request (E arriving after they expired) x handler reading everything or only k bytes (the rest read after the handler returned when the connection is kept); " +
 			"monitor: bytes read from the hijacked connection = E exactly, response fully written before the hijack handler starts (nothing written with NoResponse), nothing written afterwards, closed iff not kept; " +
 			"hijack2: the bytes after the hijacking request are buffered with it, the hijack handler reads only after ANOTHER connection of the same server was served (pooled readers are reused); " +
 			"non-trivial = E non-empty; distinct = distinct input",
@@ -41,8 +42,16 @@ func init() {
 				fmt.Fprintf(&head, "GET /pre%d%s HTTP/1.1\r\nHost: h\r\n\r\n", i, q)
 			}
 			fmt.Fprintf(&head, "GET /hj?hj=1%s HTTP/1.1\r\nHost: h\r\n", opts)
+			if cfg.HeaderRecv && pad > 30 {
+				pad -= 30 // room for the X-Req-Conf field: the head must still fit the 4096-byte read buffer
+			}
 			if pad > 0 {
 				fmt.Fprintf(&head, "X-Pad: %s\r\n", strings.Repeat("p", pad))
+			}
+			if cfg.HeaderRecv {
+				// the hijacking request asks for its own read/write deadlines through HeaderReceived; they must not
+				// outlive the request: the bytes after it arrive later than that
+				head.WriteString("X-Req-Conf: rt=3;wt=3\r\n")
 			}
 			head.WriteString("\r\n")
 			var chunks [][]byte
@@ -56,7 +65,16 @@ func init() {
 			default:
 				chunks = [][]byte{append(append([]byte(nil), head.Bytes()...), E...)}
 			}
-			res := runConn(cfg, chunks)
+			cs := newConnServer(cfg)
+			if cfg.HeaderRecv && len(chunks) > 1 {
+				cs.pauses = []time.Duration{0, 25 * time.Millisecond}
+			}
+			res := cs.run(chunks)
+			if os.Getenv("C17_DEBUG") != "" {
+				for _, e := range res.Trace.Events {
+					fmt.Fprintf(os.Stderr, "EV %s %q %d %q\n", e.Kind, e.S, e.N, trunc(e.B, 40))
+				}
+			}
 			noResp := strings.Contains(opts, "hjn=1")
 			hjStart, hjDone, writesAfter, panicMsg := -1, -1, 0, ""
 			outAtStart := -1
@@ -113,9 +131,12 @@ func init() {
 			if tier == "thorough" {
 				n = 50000
 			}
-			cfgs := []string{"", "rm=1", "khj=1", "rm=1,khj=1"}
+			cfgs := []string{"", "rm=1", "khj=1", "rm=1,khj=1", "hrc=1", "hrc=1,khj=1"}
 			for i := 0; i < n; i++ {
-				cfg := cfgs[r.Intn(4)]
+				cfg := cfgs[r.Intn(len(cfgs))]
+				if strings.HasPrefix(cfg, "hrc=1") && r.Chance(70) {
+					cfg = cfgs[r.Intn(4)] // the deadline cases pause for real: keep them a small share
+				}
 				pad := 0
 				if r.Chance(40) {
 					pad = 4096 - 60 - r.Intn(120) // head ends near the buffer boundary
